@@ -88,6 +88,14 @@ def applyOp (listener : Bool) (x : LS) (o : Op) (sk : Bool) : Option LS :=
     match step x.s.cap (.connClose o.k) with
     | some c => some (if listener then drive 64 { x with s := ⟨c, x.s.async⟩ } else { x with s := ⟨acceptAll c, x.s.async⟩ })
     | none => none
+  | "half" =>
+    -- the peer half-closes an accepted, not yet closed connection: no effect on the count
+    let known := x.s.cap.opened.contains o.k
+    if sk then (if known then none else some x) else
+    if !known then none else
+    match step x.s.cap (.peerHalfClose o.k) with
+    | some c => some { x with s := ⟨c, x.s.async⟩ }
+    | none => none
   | "set" =>
     if sk then some x else
     -- (the model's `setMax` clamps its argument to `maxCapacity` like `SetMaxCount`)
